@@ -508,10 +508,15 @@ func (s *Server) Exec(op *Op, hist map[string][]int64, opIndex int) {
 		default:
 			u = s.URL + "/storage/v1/b/" + url.PathEscape(b) + "/o/" + esc(n, op.Slash) + "?alt=media"
 		}
-		res := s.do("GET", u, nil, nil, false)
+		var hdr map[string]string
+		if op.AcceptGz {
+			hdr = map[string]string{"Accept-Encoding": "gzip"}
+		}
+		res := s.do("GET", u, hdr, nil, false)
 		s.finish(r, res)
 		if res.code == 200 {
 			r.Body = j.B(res.body)
+			r.Henc = j.S(res.header.Get("Content-Encoding"))
 			r.Hgen = atoi64(res.header.Get("X-Goog-Generation"))
 			r.Hmetagen = atoi64(res.header.Get("X-Goog-Metageneration"))
 			r.Hctype = j.S(res.header.Get("Content-Type"))
@@ -783,7 +788,7 @@ func (s *Server) Observe() *Obs {
 					o.Present = true
 					o.View = viewOf(&ao)
 				}
-				cr := s.do("GET", s.URL+"/storage/v1/b/"+url.PathEscape(b)+"/o/"+url.PathEscape(n)+"?alt=media", nil, nil, false)
+				cr := s.do("GET", s.URL+"/storage/v1/b/"+url.PathEscape(b)+"/o/"+url.PathEscape(n)+"?alt=media", map[string]string{"Accept-Encoding": "gzip"}, nil, false) // the stored bytes, not a transcoding of them
 				if cr.code == 200 {
 					o.Content = j.B(cr.body)
 					o.MediaGen = atoi64(cr.header.Get("X-Goog-Generation"))
